@@ -64,6 +64,9 @@ fn take_trace() -> String {
 // ---------------------------------------------------------------- configurations
 #[derive(Clone, Debug)]
 struct Cfg {
+    /// the instance has already been run once (a bounded run) before the run that is reported:
+    /// every run re-initialises the instance, so nothing may depend on it
+    rerun: bool,
     threads: usize,
     gran: Granularity,
     tr: bool,
@@ -108,6 +111,11 @@ macro_rules! finish {
                 .discount_function(|d| 1.0 / ((d * d) as f64))
         } else { b };
         let mut hb = b.build(&mut pl);
+        if $cfg.rerun {
+            let rng0 = rand::rngs::SmallRng::seed_from_u64($seed ^ 0x5EED);
+            let _ = if $wrap { $pool.install(|| hb.run_until_stable(2, rng0, &mut pl)) } else { hb.run_until_stable(2, rng0, &mut pl) };
+            let _ = take_trace();
+        }
         let rng = rand::rngs::SmallRng::seed_from_u64($seed);
         let r: anyhow::Result<()> = if $wrap {
             $pool.install(|| match $ub {
@@ -354,6 +362,7 @@ fn random_cfg(rng: &mut Rng, n: usize, outside_threads: usize) -> Cfg {
     };
     let ext = rng.chance(2, 5);
     Cfg {
+        rerun: rng.chance(1, 4),
         threads,
         gran,
         tr: rng.chance(3, 5),
@@ -390,7 +399,7 @@ pub fn run(seed: u64, count: usize, maxn: usize, mode: &str, out: &mut impl Writ
             initial_registers(n, weights.as_deref(), hll8, log2m, hseed)
         } else { None };
         // the reference configuration first: one thread, no transpose, in memory
-        let mut cfgs = vec![Cfg { threads: 1, gran: Granularity::Nodes(16 * 1024), tr: false, ext: false, low: false, cent: true, bo: false }];
+        let mut cfgs = vec![Cfg { rerun: false, threads: 1, gran: Granularity::Nodes(16 * 1024), tr: false, ext: false, low: false, cent: true, bo: false }];
         // then one that certainly has the transpose, and random ones
         let mut c = random_cfg(&mut rng, n, outside_threads); c.tr = true; cfgs.push(c);
         let mut c = random_cfg(&mut rng, n, outside_threads); c.tr = true; c.ext = true; c.low = false; cfgs.push(c);
@@ -401,13 +410,13 @@ pub fn run(seed: u64, count: usize, maxn: usize, mode: &str, out: &mut impl Writ
             let r = run_case(&g, weights.as_deref(), hll8, log2m, hseed, ub, cfg);
             let trace = take_trace();
             let mut line = format!(
-                "hball id={gid}.{k} grp={gid} fam={fam} n={n} arcs={m} g={} w={} kind={} log2m={log2m} seed={hseed} ub={} t={} gran={} tr={} store={} api={} cent={} bo={} gp={outside_threads}",
+                "hball id={gid}.{k} grp={gid} fam={fam} n={n} arcs={m} g={} w={} kind={} log2m={log2m} seed={hseed} ub={} t={} gran={} tr={} store={} api={} cent={} bo={} rerun={} gp={outside_threads}",
                 fmt_lists(&g),
                 weights.as_ref().map_or("-".to_string(), |w| if w.is_empty() { "-".into() } else { fmt_ints(w) }),
                 if hll8 { "hll8" } else { "hll" },
                 match ub { None => "done".to_string(), Some(u) if u == usize::MAX => "max".to_string(), Some(u) => u.to_string() },
                 cfg.threads, gran_name(&cfg.gran), cfg.tr as u8, if cfg.ext { "ext" } else { "mem" },
-                if cfg.low { "low" } else { "hi" }, cfg.cent as u8, cfg.bo as u8);
+                if cfg.low { "low" } else { "hi" }, cfg.cent as u8, cfg.bo as u8, cfg.rerun as u8);
             match r {
                 Ok(o) => {
                     line.push_str(&format!(
